@@ -81,7 +81,7 @@ CHECKS = {
    "DESIGN.md §6 C02"),
  "C19": ("exploration", "ENUM",
    "bounded-exhaustive enumeration of HTTP methods x content-type strings, and of all body chunkings (differential against the single-frame request) through the real tower service",
-   "10 methods x ~36k content-type values (six accepted spellings in all letter-case variants, near misses, missing, duplicated) with status and invocation log checked against the statement; 19 bodies x every split into <=3 (thorough 4) chunks x empty/blank chunk inserted at every boundary x Content-Length present/absent, each compared (status, body, handler log) with the single-frame request of the same bytes.",
+   "16 method tokens (incl. near-POST tokens post/Post/pOsT/POSTS/POS) x ~36k content-type values (six accepted spellings in all letter-case variants, near misses, missing, duplicated) with status and invocation log checked against the statement; 19 bodies x every split into <=3 (thorough 4) chunks x empty/blank chunk inserted at every boundary x Content-Length present/absent, each compared (status, body, handler log) with the single-frame request of the same bytes.",
    "For the chunking part the TowerService is called directly with an explicit frame-sequence body (hyper's framing is not in the loop); the method x content-type part also runs as raw HTTP/1.1 requests against Server::start over loopback TCP. The 1- and 2-chunk splits are repeated on a service whose max_request_body_size equals the body length. Bodies outside the 19 are not covered.",
    "DESIGN.md §6 C19"),
  "C13": ("model_checking", "HIST",
